@@ -16,6 +16,14 @@ def main(tier, seed):
     bins = [("dev", vlib.build_harness("dev")), ("release", vlib.build_harness("release"))]
     progs = scenarios.class_scenarios(rng, 1500 if tier == "quick" else 25000)
     profcheck.run_scenarios(rep, "classes", progs, bins, PROP)
+    # where `self`, `Self` and `super` may be used at all: Parser.tla decides it for every chain of up to three enclosing constructs (functions,
+    # lambdas, loops, methods / static methods / constructors of classes with and without a superclass, declared inside one another)
+    import parsertwin
+    ctx = parsertwin.context_sources(3)
+    nctx, sctx = parsertwin.check(rep, bins[0][1], ctx, "context rules (self / Self / super / return / break / continue under every chain of enclosing constructs)", tag="c07ctx")
+    rep.coverage["context_rule_sources"] = nctx
+    rep.coverage["states"] = rep.coverage.get("states", 0) + sctx
+    rep.coverage["traces_validated_against_impl"] = rep.coverage.get("traces_validated_against_impl", 0) + nctx
     rep.coverage["exhaustive"] = False
     rep.sample({"kind": "class scenario", "source": yprog.program_src(progs[0][1])})
     rep.coverage["rule"] = ("seeded products over hierarchies of depth 1-3 (optionally deriving the built-in Error, optionally declared inside a "
